@@ -323,6 +323,51 @@ func listingScenarios(dir string) (string, string) {
 	return "", ""
 }
 
+// putManyScenario: one goroutine puts a batch of 300 blocks with a single PutMany while another keeps asking
+// for the first and the last block of the batch, in that order.
+func putManyScenario(dir string, rounds int) (string, string) {
+	batch := make([]blocks.Block, 300)
+	for i := range batch {
+		batch[i] = ccBlock(1000 + i)
+	}
+	first, last := batch[0].Cid(), batch[len(batch)-1].Cid()
+	n := 4 + rounds/4
+	for r := 0; r < n; r++ {
+		p := filepath.Join(dir, "pm.car")
+		os.Remove(p)
+		bs, err := blockstore.OpenReadWrite(p, []cid.Cid{ccBlock(0).Cid()})
+		if err != nil {
+			return "", ""
+		}
+		done := make(chan error, 1)
+		go func() { done <- bs.PutMany(bg, batch) }()
+		var bad string
+		for stop := false; !stop; {
+			select {
+			case err := <-done:
+				if err != nil {
+					bad = "PutMany failed: " + err.Error()
+				}
+				stop = true
+			default:
+				hf, e1 := bs.Has(bg, first)
+				hl, e2 := bs.Has(bg, last)
+				if e1 == nil && e2 == nil && hf && !hl {
+					bad = "a reader found the first block of a PutMany batch and, afterwards, not its last: the batch is not one operation"
+					<-done
+					stop = true
+				}
+			}
+		}
+		bs.Discard()
+		os.Remove(p)
+		if bad != "" {
+			return "putmany-not-atomic", fmt.Sprintf("round %d: %s", r, bad)
+		}
+	}
+	return "", ""
+}
+
 type ccOp struct {
 	Op  string
 	Key int
@@ -501,6 +546,12 @@ func runConcStress(args []string) int {
 		rep.violate("conc/"+cls+"/blockstore", msg, map[string]any{"family": "conc", "kind": "blockstore", "scenario": "partial-listing"})
 	}
 	rep.eval("listing-scenarios", true)
+	// PutMany is one operation: a concurrent reader sees none or all of the batch, and a finalization
+	// that gets in finds the batch complete or absent
+	if cls, msg := putManyScenario(dir, rounds); cls != "" {
+		rep.violate("conc/"+cls+"/blockstore", msg, map[string]any{"family": "conc", "kind": "blockstore", "scenario": "putmany-batch"})
+	}
+	rep.eval("putmany-scenario", true)
 	run := 0
 	for round := 0; round < rounds; round++ {
 		for _, kind := range []string{"blockstore", "storage", "deferred"} {
